@@ -302,7 +302,9 @@ def _stub_impl(env, fs, version, last_save, autosave_dt):
     impl.snapshot_version = version
     impl.autosave_file = FakePath(fs, BASE)
     impl.last_save_time = last_save
-    impl.config = types.SimpleNamespace(autosave_dt=autosave_dt, log_level=30, log_file=None)
+    impl.config = types.SimpleNamespace(
+        autosave_dt=autosave_dt, log_level=30, log_file=None, optimize_qubit_ordering=False
+    )
     return impl
 
 
